@@ -3,7 +3,7 @@
    previous gains and of the caps.  The result lists of the two runs are related by [ok_rel]: the plain
    (candidate-keyed) parts are permutations of each other with distinct keys, the tie keys correspond one to
    one with permuted member lists and equal seat counts.  The proof is a simulation through every branch of
-   the model (scan, the recursive cap branch, the over-award subtraction, the remainder stage). *)
+   the model (scan, the over-award subtraction, the remainder stage). *)
 From Coq Require Import ZArith QArith Qround List Bool Lia Lqa Permutation Arith.
 From VL Require Import Prelude.PyDict Model.GetNBest Model.Quota Model.QuotaDistributor
      Proofs.Dict_proofs Proofs.GetNBest_proofs Proofs.QOrd Proofs.QD_proofs Proofs.QD2_proofs Proofs.Order_proofs
@@ -474,72 +474,60 @@ Section Scan.
   Variable accept_equal : bool.
   Notation fulfills := (fulfills accept_equal).
 
-  (* None: nothing awarded; Some (s, None): s seats; Some (s, Some o): capped, o seats overshot *)
-  Definition scan_item (q : Q) (n : Z) (prev caps : zdict) (cv : C * Q) : option (Z * option Z) :=
+  (* None: nothing awarded; Some s: s seats (whole quotas cut at the cap, less the previous gains) *)
+  Definition scan_item (q : Q) (prev caps : zdict) (cv : C * Q) : option Z :=
     let n_prev := dget_or prev (fst cv) 0 in
     if fulfills (snd cv) q then
-      let add := py_trunc (snd cv / q)%Q - n_prev in
-      if 0 <? add then
-        if dget_or caps (fst cv) n <? add + n_prev then Some (add - (add + n_prev), Some (add + n_prev))
-        else Some (add, None)
-      else None
+      let add := cap_whole caps (fst cv) (py_trunc (snd cv / q)%Q) - n_prev in
+      if 0 <? add then Some add else None
     else None.
 
-  Definition isel q n prev caps (cv : C * Q) : zdict :=
-    match scan_item q n prev caps cv with Some (s, _) => [(fst cv, s)] | None => [] end.
-  Definition inov q n prev caps (cv : C * Q) : Z :=
-    match scan_item q n prev caps cv with Some (_, Some o) => o | _ => 0 end.
-  Definition iovc q n prev caps (cv : C * Q) : list C :=
-    match scan_item q n prev caps cv with Some (_, Some _) => [fst cv] | _ => [] end.
+  Definition isel q prev caps (cv : C * Q) : zdict :=
+    match scan_item q prev caps cv with Some s => [(fst cv, s)] | None => [] end.
 
-  Lemma isel_keys q n prev caps votes c : In c (map fst (flat_map (isel q n prev caps) votes)) -> In c (map fst votes).
+  Lemma isel_keys q prev caps votes c : In c (map fst (flat_map (isel q prev caps) votes)) -> In c (map fst votes).
   Proof.
     intros H. apply in_map_iff in H. destruct H as ([c0 s] & Hc & Hi). simpl in Hc. subst c0.
     apply in_flat_map in Hi. destruct Hi as (cv & Hcv & Hi). apply in_map_iff. exists cv. split; [|exact Hcv].
-    unfold isel in Hi. destruct (scan_item q n prev caps cv) as [[s0 o]|]; [|destruct Hi].
+    unfold isel in Hi. destruct (scan_item q prev caps cv) as [s0|]; [|destruct Hi].
     destruct Hi as [Hi|[]]. injection Hi as <- _. reflexivity.
   Qed.
 
-  Lemma isel_nodup q n prev caps votes : NoDup (map fst votes) -> keysnd (flat_map (isel q n prev caps) votes).
+  Lemma isel_nodup q prev caps votes : NoDup (map fst votes) -> keysnd (flat_map (isel q prev caps) votes).
   Proof.
     unfold keysnd. induction votes as [|cv t IH]; simpl; intros H; [constructor|].
     inversion H as [|? ? Hk Hn]; subst. rewrite map_app. unfold isel at 1.
-    destruct (scan_item q n prev caps cv) as [[s o]|]; simpl; [|apply IH, Hn].
+    destruct (scan_item q prev caps cv) as [s|]; simpl; [|apply IH, Hn].
     constructor; [|apply IH, Hn]. intros Hi. apply Hk. eapply isel_keys, Hi.
   Qed.
 
-  Lemma scan_char q n prev caps votes : forall sel nov ovc, NoDup (map fst votes) ->
+  Lemma scan_char q prev caps votes : forall sel, NoDup (map fst votes) ->
     (forall c, In c (map fst votes) -> ~ In c (map fst sel)) ->
-    scan accept_equal votes q n prev caps (sel, nov, ovc) =
-      (sel ++ flat_map (isel q n prev caps) votes, nov + lsumZ (map (inov q n prev caps) votes),
-       ovc ++ flat_map (iovc q n prev caps) votes).
+    scan accept_equal votes q prev caps sel = sel ++ flat_map (isel q prev caps) votes.
   Proof.
-    induction votes as [|[c v] t IH]; intros sel nov ovc Hnd Hfresh.
-    - simpl. rewrite !app_nil_r, Z.add_0_r. reflexivity.
+    induction votes as [|[c v] t IH]; intros sel Hnd Hfresh.
+    - simpl. rewrite app_nil_r. reflexivity.
     - inversion Hnd as [|? ? Hk Hn]; subst.
       assert (Hc : ~ In c (map fst sel)) by (apply Hfresh; left; reflexivity).
-      cbn [scan flat_map map lsumZ fold_right]. unfold isel at 1, inov at 1, iovc at 1, scan_item. cbn [fst snd].
-      assert (Hskip : scan accept_equal t q n prev caps (sel, nov, ovc) =
-        (sel ++ [] ++ flat_map (isel q n prev caps) t, nov + (0 + lsumZ (map (inov q n prev caps) t)), ovc ++ [] ++ flat_map (iovc q n prev caps) t)).
+      cbn [scan flat_map]. unfold isel at 1, scan_item. cbn [fst snd].
+      assert (Hskip : scan accept_equal t q prev caps sel = sel ++ [] ++ flat_map (isel q prev caps) t).
       { rewrite IH; [|exact Hn|intros; apply Hfresh; right; assumption]. reflexivity. }
       destruct (fulfills v q); [|exact Hskip].
-      destruct (0 <? py_trunc (v / q) - dget_or prev c 0); [|exact Hskip]. clear Hskip.
+      destruct (0 <? cap_whole caps c (py_trunc (v / q)) - dget_or prev c 0); [|exact Hskip]. clear Hskip.
       assert (Hfresh' : forall x, forall c0, In c0 (map fst t) -> ~ In c0 (map fst (dset sel c x))).
       { intros x c0 Hc0. rewrite dset_keys_in. intros [->|Hi]; [tauto|]. revert Hi. apply Hfresh. right. exact Hc0. }
-      destruct (dget_or caps c n <? _).
-      + rewrite IH; [|exact Hn|apply Hfresh']. rewrite (dset_fresh sel c _ Hc), <- !app_assoc. simpl. match goal with |- (?a, ?x, ?b) = (?a, ?y, ?b) => replace x with y by (unfold lsumZ; lia); reflexivity end.
-      + rewrite IH; [|exact Hn|apply Hfresh']. rewrite (dset_fresh sel c _ Hc), <- !app_assoc. simpl. match goal with |- (?a, ?x, ?b) = (?a, ?y, ?b) => replace x with y by (unfold lsumZ; lia); reflexivity end.
+      rewrite IH; [|exact Hn|apply Hfresh']. rewrite (dset_fresh sel c _ Hc), <- !app_assoc. reflexivity.
   Qed.
 
-  Lemma scan_item_ext q q' n prev prev' caps caps' cv : (q' == q)%Q ->
+  Lemma scan_item_ext q q' prev prev' caps caps' cv : (q' == q)%Q ->
     (forall c, dget_or prev' c 0 = dget_or prev c 0) -> (forall c, dget caps' c = dget caps c) ->
-    scan_item q' n prev' caps' cv = scan_item q n prev caps cv.
+    scan_item q' prev' caps' cv = scan_item q prev caps cv.
   Proof.
-    intros Hq Hp Hc. unfold scan_item, QuotaDistributor.fulfills.
+    intros Hq Hp Hc. unfold scan_item, QuotaDistributor.fulfills, cap_whole.
     assert (E1 : Qle_bool (snd cv) q' = Qle_bool (snd cv) q) by (apply Qle_bool_ext; [reflexivity|exact Hq]).
     assert (E2 : Qeq_bool (snd cv) q' = Qeq_bool (snd cv) q) by (apply Qeq_bool_ext; [reflexivity|exact Hq]).
     assert (E3 : py_trunc (snd cv / q') = py_trunc (snd cv / q)) by (apply py_trunc_Qeq; rewrite Hq; reflexivity).
-    rewrite E1, E2, E3, Hp. unfold dget_or at 2 5. rewrite Hc. reflexivity.
+    rewrite E1, E2, E3, Hp, Hc. reflexivity.
   Qed.
 End Scan.
 
@@ -736,7 +724,6 @@ Section Sim.
   Variable pol : policy.
   Hypothesis Hquota : quota_ext quota.
 
-  Notation qd_eval := (qd_eval quota accept_equal pol).
   Notation subtract := QuotaDistributor.subtract.
 
   Section Fixed.
@@ -853,61 +840,35 @@ Section Sim.
     Qed.
   End Fixed.
 
-  (* the part of evaluate after the (optional) recursive call *)
-  Definition qd_tail (votes : list (C * Q)) (q : Q) (n : Z) (prev sel : zdict) (extra : list (key * Z)) : qd_result :=
-    if has_tie extra then QD_unmodelled else
-    let sel2 := add_dict sel (plain_of extra) in
-    let total := zsumv sel2 + zsumv prev in
+  (* the part of evaluate after the loop over the votes *)
+  Definition qd_tail (votes : list (C * Q)) (q : Q) (n : Z) (prev sel : zdict) : qd_result :=
+    let total := zsumv sel + zsumv prev in
     if n <? total then
       match pol with
-      | PIgnore => QD_ok (kplain sel2)
+      | PIgnore => QD_ok (kplain sel)
       | PError => QD_vse
-      | PSubtract => subtract (Z.to_nat (total - n)) votes q prev sel2 (total - n)
+      | PSubtract => subtract (Z.to_nat (total - n)) votes q prev sel (total - n)
       end
-    else QD_ok (kplain sel2).
+    else QD_ok (kplain sel).
 
-  Lemma qd_eval_S f votes n prev caps :
-    qd_eval (S f) votes n prev caps =
-      let q := quota (qsumv votes) n in
-      if Qeq_bool q 0 && existsb (fun cv => fulfills accept_equal (snd cv) q) votes then QD_zerodiv else
-      let '(sel, nov, ovc) := scan accept_equal votes q n prev caps ([], 0, []) in
-      if nov =? 0 then qd_tail votes q n prev sel []
-      else match qd_eval f (filter (fun cv => negb (cmem (fst cv) ovc)) votes) nov
-                   (map (fun cv => (fst cv, dget_or sel (fst cv) 0 + dget_or prev (fst cv) 0)) votes) caps with
-           | QD_ok extra => qd_tail votes q n prev sel extra
-           | r => r
-           end.
-  Proof.
-    cbn [QuotaDistributor.qd_eval]. cbv zeta.
-    destruct (Qeq_bool _ 0 && _); [reflexivity|].
-    destruct (scan _ _ _ _ _ _ _) as [[sel nov] ovc].
-    destruct (nov =? 0); [reflexivity|].
-    destruct (QuotaDistributor.qd_eval _ _ _ f _ _ _ _); reflexivity.
-  Qed.
-
-  Lemma qd_tail_perm votes votes' q q' n prev prev' sel sel' extra extra' :
+  Lemma qd_tail_perm votes votes' q q' n prev prev' sel sel' :
     NoDup (map fst votes) -> Permutation votes votes' -> keysnd prev -> Permutation prev prev' -> (q' == q)%Q ->
-    keysnd sel -> Permutation sel sel' -> ok_rel extra extra' ->
-    qd_rel (qd_tail votes q n prev sel extra) (qd_tail votes' q' n prev' sel' extra').
+    keysnd sel -> Permutation sel sel' ->
+    qd_rel (qd_tail votes q n prev sel) (qd_tail votes' q' n prev' sel').
   Proof.
-    intros Hvnd Hvp Hpnd Hpp Hq Hs Hsp Hex. unfold qd_tail.
-    rewrite <- (ok_rel_has_tie _ _ Hex). destruct (has_tie extra); [exact I|].
-    destruct Hex as (Hen & Hep & _).
-    assert (Hs2 : keysnd (add_dict sel (plain_of extra))) by (apply add_dict_nodup, Hs).
-    assert (Hp2 : Permutation (add_dict sel (plain_of extra)) (add_dict sel' (plain_of extra'))) by (apply add_dict_perm; assumption).
-    rewrite <- (zsumv_perm _ _ Hp2), <- (zsumv_perm _ _ Hpp).
+    intros Hvnd Hvp Hpnd Hpp Hq Hs Hsp. unfold qd_tail.
+    rewrite <- (zsumv_perm _ _ Hsp), <- (zsumv_perm _ _ Hpp).
     destruct (n <? _); [|apply ok_rel_kplain; assumption].
     destruct pol; [apply ok_rel_kplain; assumption|exact I|].
     apply subtract_perm; assumption.
   Qed.
 
-  Theorem qd_eval_perm : forall fuel votes votes' n prev prev' caps caps',
+  Theorem qd_evaluate_perm votes votes' n prev prev' caps caps' :
     NoDup (map fst votes) -> Permutation votes votes' -> keysnd prev -> Permutation prev prev' ->
     (forall c, dget caps' c = dget caps c) ->
-    qd_rel (qd_eval fuel votes n prev caps) (qd_eval fuel votes' n prev' caps').
+    qd_rel (qd_evaluate quota accept_equal pol votes n prev caps) (qd_evaluate quota accept_equal pol votes' n prev' caps').
   Proof.
-    induction fuel as [|f IH]; intros votes votes' n prev prev' caps caps' Hvnd Hvp Hpnd Hpp Hc; [exact I|].
-    rewrite !qd_eval_S. cbv zeta.
+    intros Hvnd Hvp Hpnd Hpp Hc. unfold qd_evaluate.
     assert (Hvnd' : NoDup (map fst votes')) by (eapply perm_nodup_keys; eassumption).
     assert (Hq : (quota (qsumv votes') n == quota (qsumv votes) n)%Q) by (apply Hquota; symmetry; apply qsumv_perm, Hvp).
     set (q := quota (qsumv votes) n) in *. set (q' := quota (qsumv votes') n) in *.
@@ -917,53 +878,18 @@ Section Sim.
       rewrite (Qle_bool_ext (snd cv) (snd cv) q' q), (Qeq_bool_ext (snd cv) (snd cv) q' q); try reflexivity; exact Hq. }
     rewrite Hz, Hex. destruct (Qeq_bool q 0 && _); [exact I|].
     rewrite !scan_char; try assumption; try (intros ? ? []).
-    cbn [app]. rewrite !Z.add_0_l.
+    cbn [app].
     assert (Hpd : forall c, dget_or prev' c 0 = dget_or prev c 0) by (intros c; symmetry; apply dget_or_perm; assumption).
-    assert (Hit : forall cv, scan_item accept_equal q' n prev' caps' cv = scan_item accept_equal q n prev caps cv).
+    assert (Hit : forall cv, scan_item accept_equal q' prev' caps' cv = scan_item accept_equal q prev caps cv).
     { intros cv. apply scan_item_ext; assumption. }
-    assert (Esel : flat_map (isel accept_equal q' n prev' caps') votes' = flat_map (isel accept_equal q n prev caps) votes').
+    assert (Esel : flat_map (isel accept_equal q' prev' caps') votes' = flat_map (isel accept_equal q prev caps) votes').
     { apply flat_map_ext. intros cv. unfold isel. rewrite Hit. reflexivity. }
-    assert (Enov : map (inov accept_equal q' n prev' caps') votes' = map (inov accept_equal q n prev caps) votes').
-    { apply map_ext. intros cv. unfold inov. rewrite Hit. reflexivity. }
-    assert (Eovc : flat_map (iovc accept_equal q' n prev' caps') votes' = flat_map (iovc accept_equal q n prev caps) votes').
-    { apply flat_map_ext. intros cv. unfold iovc. rewrite Hit. reflexivity. }
-    rewrite Esel, Enov, Eovc. clear Esel Enov Eovc.
-    set (sel := flat_map (isel accept_equal q n prev caps) votes).
-    set (sel' := flat_map (isel accept_equal q n prev caps) votes').
-    set (ovc := flat_map (iovc accept_equal q n prev caps) votes).
-    set (ovc' := flat_map (iovc accept_equal q n prev caps) votes').
+    rewrite Esel. clear Esel.
+    set (sel := flat_map (isel accept_equal q prev caps) votes).
+    set (sel' := flat_map (isel accept_equal q prev caps) votes').
     assert (Hs : keysnd sel) by (apply isel_nodup, Hvnd).
     assert (Hsp : Permutation sel sel') by (apply Permutation_flat_map, Hvp).
-    assert (Hop : Permutation ovc ovc') by (apply Permutation_flat_map, Hvp).
-    rewrite <- (lsumZ_perm _ _ (Permutation_map (inov accept_equal q n prev caps) Hvp)).
-    set (nov := lsumZ (map (inov accept_equal q n prev caps) votes)).
-    destruct (nov =? 0).
-    - apply qd_tail_perm; try assumption. unfold ok_rel. simpl. split; [constructor|]. split; constructor.
-    - assert (Hrem : Permutation (filter (fun cv : C * Q => negb (cmem (fst cv) ovc)) votes) (filter (fun cv : C * Q => negb (cmem (fst cv) ovc')) votes')).
-      { rewrite (filter_ext (fun cv : C * Q => negb (cmem (fst cv) ovc')) (fun cv : C * Q => negb (cmem (fst cv) ovc))).
-        - apply perm_filter, Hvp.
-        - intros cv. rewrite (cmem_perm _ _ _ Hop). reflexivity. }
-      assert (Hgn : keysnd (map (fun cv : C * Q => (fst cv, dget_or sel (fst cv) 0 + dget_or prev (fst cv) 0)) votes)).
-      { unfold keysnd. rewrite map_map. simpl. exact Hvnd. }
-      assert (Hgp : Permutation (map (fun cv : C * Q => (fst cv, dget_or sel (fst cv) 0 + dget_or prev (fst cv) 0)) votes)
-                                (map (fun cv : C * Q => (fst cv, dget_or sel' (fst cv) 0 + dget_or prev' (fst cv) 0)) votes')).
-      { rewrite (map_ext (fun cv : C * Q => (fst cv, dget_or sel' (fst cv) 0 + dget_or prev' (fst cv) 0))
-                         (fun cv : C * Q => (fst cv, dget_or sel (fst cv) 0 + dget_or prev (fst cv) 0))).
-        - apply Permutation_map, Hvp.
-        - intros cv. rewrite Hpd, (dget_or_perm sel sel' (fst cv) 0 Hs Hsp). reflexivity. }
-      pose proof (IH _ _ nov _ _ caps caps' (filter_keys_nodup _ _ Hvnd) Hrem Hgn Hgp Hc) as Hrec.
-      destruct (qd_eval f (filter (fun cv : C * Q => negb (cmem (fst cv) ovc)) votes) nov _ caps) as [ex| | | | |];
-      destruct (qd_eval f (filter (fun cv : C * Q => negb (cmem (fst cv) ovc')) votes') nov _ caps') as [ex'| | | | |];
-        try exact Hrec; try contradiction.
-      apply qd_tail_perm; assumption.
-  Qed.
-
-  Theorem qd_evaluate_perm votes votes' n prev prev' caps caps' :
-    NoDup (map fst votes) -> Permutation votes votes' -> keysnd prev -> Permutation prev prev' ->
-    (forall c, dget caps' c = dget caps c) ->
-    qd_rel (qd_evaluate quota accept_equal pol votes n prev caps) (qd_evaluate quota accept_equal pol votes' n prev' caps').
-  Proof.
-    intros Hvnd Hvp Hpnd Hpp Hc. unfold qd_evaluate. rewrite <- (Permutation_length Hvp). apply qd_eval_perm; assumption.
+    apply (qd_tail_perm votes votes' q q' n prev prev' sel sel'); assumption.
   Qed.
 
   (* ------------------------------------------------------------ LargestRemainder *)
@@ -1059,9 +985,9 @@ Section Sim.
     lr_rel (lr_evaluate quota accept_equal pol votes n prev caps) (lr_evaluate quota accept_equal pol votes' n prev' caps').
   Proof.
     intros Hvnd Hvp Hpnd Hpp Hc. unfold lr_evaluate.
-    pose proof (qd_evaluate_perm votes votes' n prev prev' [] [] Hvnd Hvp Hpnd Hpp (fun _ => eq_refl)) as Hqd.
-    destruct (qd_evaluate quota accept_equal pol votes n prev []) as [qe| | | | |];
-    destruct (qd_evaluate quota accept_equal pol votes' n prev' []) as [qe'| | | | |]; try exact Hqd; try contradiction.
+    pose proof (qd_evaluate_perm votes votes' n prev prev' caps caps' Hvnd Hvp Hpnd Hpp Hc) as Hqd.
+    destruct (qd_evaluate quota accept_equal pol votes n prev caps) as [qe| | | | |];
+    destruct (qd_evaluate quota accept_equal pol votes' n prev' caps') as [qe'| | | | |]; try exact Hqd; try contradiction.
     cbn [qd_rel] in Hqd. fold (has_tie qe) (has_tie qe') (plain_of qe) (plain_of qe').
     rewrite <- (ok_rel_has_tie _ _ Hqd). destruct (has_tie qe); [exact I|].
     assert (Hq : (quota (qsumv votes') n == quota (qsumv votes) n)%Q) by (apply Hquota; symmetry; apply qsumv_perm, Hvp).
